@@ -184,7 +184,7 @@ def finish(pack, results, wall, tier, seed, write_evidence=True):
     known = load_known_findings(pid)
     is_known = lambda n: any(k["matches"](n) for k in known)
     os.makedirs(os.path.join(VERIF, "evidence"), exist_ok=True)
-    rdir = os.path.join(VERIF, "replays", pid)
+    rdir = os.path.join(os.environ.get("VERIF_REPLAYS") or os.path.join(VERIF, "replays"), pid)
     os.makedirs(rdir, exist_ok=True)
     violations, lines, exit_code = [], [], 0
     problems = pack.load_problems() if callable(getattr(pack, "load_problems", None)) else []
